@@ -72,6 +72,55 @@ theorem freq_response_field_head {K : Type} [Field K] [DecidableEq K] (b a : Lis
     (h0 : a0 ≠ 0) (w : K) : respOfFilter b (a0 :: a) w = respSpec b (a0 :: a) w :=
   respOfFilter_eq_spec_of_head b a a0 h0 w
 
+/-- **C12.1e** filters given as `{delay: coefficient}` dicts — sparse, in any insertion order,
+possibly non-causal (negative delays): `Poly(dict)` drops zero entries, `sorted()` reorders, the
+constructor shifts, `Poly.__call__` takes the Horner or the general (Laurent) path; the response
+is `Σ num_k w^k / Σ den_k w^k` over the given entries (`w^k` with `k ∈ ℤ`). -/
+theorem freq_response_dict {K : Type} [Field K] [DecidableEq K] (num den : Terms K) (w : K)
+    (hw : w ≠ 0) :
+    respOfTerms num den w =
+      if den.all (fun t => decide (t.2 = 0)) then Resp.valueError
+      else if (den.map fun t => t.2 * w ^ t.1).sum = 0 then Resp.nan
+      else Resp.val ((num.map fun t => t.2 * w ^ t.1).sum / (den.map fun t => t.2 * w ^ t.1).sum) := by
+  rw [respOfTerms_eq_spec _ _ _ hw]
+  simp only [respSpecTerms, HspecTerms, evalTerms_eq, termSum]
+  by_cases h1 : den.all (fun t => decide (t.2 = 0)) = true
+  · simp only [h1, if_true]
+  · simp only [h1, Bool.false_eq_true, if_false]
+    by_cases h2 : (den.map fun t => t.2 * w ^ t.1).sum = 0
+    · simp only [h2, if_true]
+    · simp only [h2, if_false]
+
+/-- **C12.1f** the constructor raises (`min()` of an empty sequence, ValueError) exactly when the
+denominator has no non-zero entry, whatever the numerator. -/
+theorem constructor_raises_iff {K : Type} [Field K] [DecidableEq K] (b a : List K) :
+    mkFilter b a = none ↔ ∀ c ∈ a, c = 0 := by
+  unfold mkFilter finishFilter
+  constructor
+  · intro h
+    have hm : minKey (polyFrom 0 a) = none := by
+      cases hmk : minKey (polyFrom 0 a) with
+      | none => rfl
+      | some p =>
+        rw [hmk] at h
+        by_cases hp : p = 0 <;> simp [hp] at h
+    have := (polyFrom_eq_nil 0 a).1 ((minKey_eq_none _).1 hm)
+    simpa using this
+  · intro h
+    have : polyFrom 0 a = [] := (polyFrom_eq_nil 0 a).2 (by simpa using h)
+    simp [this, minKey]
+
+/-- **C12.1g** `freq_response` is 2π-periodic in the frequency (the harness probes in (-π, π] and
+in [0, 2π)). -/
+theorem freq_response_periodic (b a : List ℂ) (ω : ℝ) (k : ℤ) :
+    respOfFilter b a (Complex.exp (-(Complex.I * ((ω + 2 * Real.pi * k : ℝ) : ℂ))))
+      = respOfFilter b a (Complex.exp (-(Complex.I * ω))) := by
+  congr 1
+  have : -(Complex.I * ((ω + 2 * Real.pi * k : ℝ) : ℂ))
+      = -(Complex.I * ω) + (-k : ℤ) * (2 * Real.pi * Complex.I) := by
+    push_cast; ring
+  rw [this, Complex.exp_add, Complex.exp_int_mul_two_pi_mul_I, mul_one]
+
 /-- **C12.1d** per element over a container of frequencies: same length, element `i` of the
 result is the response at element `i` of the argument. -/
 theorem freq_response_elementwise (b a : List ℂ) (ωs : List ℝ) :
@@ -290,6 +339,8 @@ example : respOfFilter [(1 : ℚ), 2, 3] [1, 1/2] 1 = Resp.val 4 := by decide +k
 example : respOfFilter [(1 : ℚ), 2, 3] [0, 0, 1] 2 = Resp.val (17/4) := by decide +kernel   -- shifted, general path
 example : respOfFilter [(1 : ℚ)] [1, -1] 1 = Resp.nan := by decide +kernel                     -- pole at ω = 0
 example : respOfFilter [(1 : ℚ)] [0, 0] 1 = Resp.valueError := by decide +kernel
+example : respOfTerms [((2 : ℤ), (3 : ℚ)), (-1, 1), (0, 0)] [(1, 2), (0, 4)] 2 = Resp.val (25/16) := by
+  decide +kernel                                              -- unordered, non-causal, a zero entry
 example : cascadeResp [([(1 : ℚ), 1], [1]), ([2], [1, 1])] 1 = Resp.val 2 := by decide +kernel
 example : parallelResp [([(1 : ℚ), 1], [1]), ([2], [1, 1])] 1 = Resp.val 3 := by decide +kernel
 example : firRun [(1 : ℚ), 2, 0, 3] [1, 0, 0, 0, 0] = [1, 2, 0, 3, 0] := by decide +kernel
